@@ -298,18 +298,20 @@ def run_device(case, acc, report, out):
     if s.error is not None:
         report('dump_to_file-error', {'error': repr(s.error)})
         return out
-    text = data.decode('utf-8')
+    text = data.decode('utf-8') if isinstance(data, (bytes, bytearray)) else data        # the file object may be written as bytes or as text
+    data = text.encode('utf-8')
     parser = lambda: rscsv.create_line_parser(dtype=[('i', int), ('s', str), ('f', float)])
     # the same dump / load observables subscribed a second time: the same bytes are written again, the same rows loaded again
     devs = []
 
     def opener(f, mode, encoding=None, **kw):
-        devs.append(Device() if 'w' in mode else Device(text))
+        devs.append(Device() if 'w' in mode else Device(data if 'b' in mode else text))      # text or binary, as asked for
         return devs[-1]
     dump_obs = rx.from_(rows).pipe(rscsv.dump_to_file('nowhere/f.csv', encoding='utf-8', open_obj=opener))
     for _ in (1, 2):
         RawSink().subscribe_to(dump_obs)
-    if len(devs) != 2 or devs[0].content() != data or devs[1].content() != data:
+    as_bytes = lambda c: c.encode('utf-8') if isinstance(c, str) else c
+    if len(devs) != 2 or as_bytes(devs[0].content()) != data or as_bytes(devs[1].content()) != data:
         report('second-subscription-of-dump_to_file-writes-other-bytes', {'first': repr(devs[0].content() if devs else None)[:200],
                                                                          'second': repr(devs[1].content() if len(devs) > 1 else None)[:200]})
     load_obs = rscsv.load_from_file('nowhere/f.csv', parser(), open_obj=opener)
